@@ -46,13 +46,15 @@ def run_one(mod, prop, tier, seed, idx, case_timeout):
 def main():
     prop, tier, seed, w, n, ncases, out, budget = sys.argv[1:9]
     seed, w, n, ncases, budget = int(seed), int(w), int(n), int(ncases), float(budget)
+    start = int(sys.argv[9]) if len(sys.argv) > 9 else w
     mod = importlib.import_module("pvmon.props." + prop)
     signal.signal(signal.SIGALRM, _alarm)
     case_timeout = int(getattr(mod, "CASE_TIMEOUT", 60))
     t0 = time.time()
     nsample = 0
-    with open(out, "w") as f:
-        for idx in range(w, ncases, n):
+    import gc
+    with open(out, "a") as f:
+        for idx in range(start, ncases, n):
             if time.time() - t0 > budget:
                 f.write(json.dumps({"idx": idx, "status": "notrun"}) + "\n")
                 continue
@@ -64,6 +66,8 @@ def main():
                     nsample += 1
             f.write(json.dumps(res, default=str) + "\n")
             f.flush()
+            res = None
+            gc.collect()
 
 
 if __name__ == "__main__":
